@@ -260,6 +260,47 @@ def run_case(c, rng):
 
 
 def run_network(c, rng, spec, wn, narrow):
+    # controls and rules that change a junction's minimum / required pressure while the run is under way (the hydraulic model
+    # registers an updater for both attributes); None falls back to the global option
+    changes = []
+    if not narrow and rng.random() < 0.6:
+        from wntr.network import controls as ctl
+        o_ = spec['options']
+        hyd_, dur_ = o_['hydraulic_timestep'], o_['duration']
+        # a first run tells which pressures to expect, so that the new parameters can be put where they matter (partial delivery)
+        pre = simobs.run_wntr(wn, deep=False)
+        if not simobs.converged(pre):
+            c.inconclusive('sim_failed')
+            return
+        P0 = pre.results.node['pressure']
+        wn.reset_initial_values()
+        for k in range(rng.randint(1, 3)):
+            j = rng.choice(spec['junctions'])
+            pmin0, preq0, _ = params_of(spec, j)
+            attr = rng.choice(['required_pressure', 'required_pressure', 'minimum_pressure'])
+            p_seen = float(P0[j['name']].mean())
+            if attr == 'required_pressure':
+                val = rng.choice([gnet._round(preq0 * rng.choice([0.6, 1.5, 2.5]) + 0.5, 4), None if 'required_pressure' in j else gnet._round(preq0 + 7.0, 4)])
+                if p_seen > pmin0 + 1.0 and rng.random() < 0.7:
+                    val = gnet._round(p_seen * rng.choice([1.2, 1.6, 2.5]), 4)       # above the pressure the junction sees
+                if val is not None and val < pmin0 + 0.2:
+                    val = gnet._round(pmin0 + 1.0, 4)
+            else:
+                val = gnet._round(max(0.0, min(pmin0 + rng.choice([-2.0, 1.0, 3.0]), preq0 - 0.2)), 4)
+                if pmin0 + 0.5 < p_seen < preq0 - 0.5 and rng.random() < 0.7:
+                    val = gnet._round(max(0.0, min(p_seen * rng.choice([0.5, 0.8]), preq0 - 0.2)), 4)
+            if any(ch['junction'] == j['name'] for ch in changes):
+                continue        # one change per junction keeps the expected parameters unambiguous
+            t_ = hyd_ * rng.randint(1, max(1, dur_ // hyd_)) + rng.choice([0, 0, 0, hyd_ // 2])
+            act = ctl.ControlAction(wn.get_node(j['name']), attr, val)
+            if rng.random() < 0.5:
+                wn.add_control('pdd_change_%d' % k, ctl.Control(ctl.SimTimeCondition(wn, '=', t_), act))
+            else:
+                wn.add_control('pdd_change_%d' % k, ctl.Rule(ctl.SimTimeCondition(wn, '>=', t_), [act], priority=3))
+                t_ = -(-t_ // o_['rule_timestep']) * o_['rule_timestep']      # rules act at multiples of the rule step
+            changes.append({'junction': j['name'], 'attr': attr, 'value': val, 'time': t_})
+        if changes:
+            c.count('runs_with_pdd_parameter_controls')
     tr = simobs.run_wntr(wn, deep=False)
     if not simobs.converged(tr):
         c.inconclusive('sim_failed')
@@ -276,6 +317,15 @@ def run_network(c, rng, spec, wn, narrow):
             if j['name'] not in conn:
                 continue
             pmin, preq, e = params_of(spec, j)
+            ch = [x for x in changes if x['junction'] == j['name']]
+            if ch:
+                if t >= ch[0]['time']:
+                    v_ = ch[0]['value']
+                    if ch[0]['attr'] == 'required_pressure':
+                        preq = o['required_pressure'] if v_ is None else v_
+                    else:
+                        pmin = v_
+                    c.count('system_points_after_parameter_change')
             D = sum(d['base'] * (ref.pattern_mult(pats[d['pattern']], t + o['pattern_start'], o['pattern_timestep'], True, bool(o.get('pattern_interpolation'))) if d['pattern'] else 1.0)
                     for d in j['demands']) * o['demand_multiplier']
             p, d = float(P[j['name']].values[i]), float(Dm[j['name']].values[i])
